@@ -159,7 +159,7 @@ def register(gen, T):
                     r'if (search_pos\.last_macro_function_index == macro_index && i < search_pos\.next_pos) \{ continue; \}',
                     r'if (activate_pos < search_pos\.next_pos) \{ continue; \}',
                     r'(activate_pos = tokens\.len\(\) - trimmed\.len\(\));',
-                    r'let (trimmed = trim_whitespace_start\(&tokens\[i \+ 1\.\.\]\));',
+                    r'let (trimmed = trim_whitespace_[a-z_]*start\(&tokens\[i \+ 1\.\.\]\));',
                     r'while (pos\.next_pos < tokens\.len\(\)) \{'):
             src_text = normws(ami) if pat.startswith('while') else fsm
             m2 = re.search(pat, src_text)
@@ -168,6 +168,36 @@ def register(gen, T):
             uses.append(m2.group(1))
         out.append("/-- the places where `find_single_macro` / the loop of `apply_macros_internal` consult the search position -/\n")
         out.append("def searchPositionUses : List String := " + T.lean_list(lean_str(x) for x in uses) + "\n\n")
+
+        # --- which white space is skipped where (fix f08088c: an invocation may continue on the next line) ----
+        def trim_condition(fname):
+            b = normws(fn_body(pre, fname))
+            m3 = re.fullmatch(r'while let Some\(\(PreprocessToken\(tok, _\), rest\)\) = tokens\.(split_first|split_last)\(\) \{ '
+                              r'if (.+?) \{ tokens = rest; \} else \{ break; \} \} tokens', b)
+            if not m3:
+                raise ExtractError(f"{fname}: not the expected trimming loop")
+            return [fname, m3.group(1), m3.group(2)]
+        trims = [trim_condition(f) for f in ("trim_whitespace_start", "trim_whitespace_end",
+                                             "trim_whitespace_and_endlines_start")]
+        out.append("/-- the trimming loops: `[function, end it works on, condition under which a token is removed]` -/\n")
+        out.append("def trimLoops : List (List String) :=\n  " +
+                   T.lean_list(T.lean_list(lean_str(x) for x in row) for row in trims) + "\n\n")
+        sma = normws(fn_body(pre, "split_macro_args"))
+        m3 = re.search(r'let (remaining = trim_whitespace_[a-z_]*start\(remaining\));', sma)
+        if not m3:
+            raise ExtractError("split_macro_args: the trim before the opening parenthesis not found")
+        arg_trims = sorted(set(re.findall(r'let (arg = [a-z_]+\(&remaining\[\.\.pos\]\));', sma)))
+        if not arg_trims:
+            raise ExtractError("split_macro_args: the trimming of the arguments not found")
+        m4 = re.search(r'if macro_def\.num_params == 0 \{ if (!\(.+?\)) \{ return Err\(PreprocessError::'
+                       r'MacroExpectsDifferentNumberOfArguments\); \} \} else if (args\.len\(\) as u64 != macro_def\.num_params) \{',
+                       asm_n)
+        if not m4:
+            raise ExtractError("apply_single_macro: the arity checks not found")
+        out.append("/-- `split_macro_args`: how the `(` is reached and how each argument is trimmed; `apply_single_macro`: the two\n"
+                   "arity tests (macro without parameters / with parameters) -/\n")
+        out.append("def argumentReading : List String := " +
+                   T.lean_list(lean_str(x) for x in [m3.group(1)] + arg_trims + [m4.group(1), m4.group(2)]) + "\n\n")
 
 
         # --- the nesting limit of #include (fix 6b8d369) ---------------------------------------------------
